@@ -1,1 +1,109 @@
-/-! Property theorems for C03 (statements + proofs by reference to `Proof/`). Not built yet. -/
+import GraafVerif.Proof.DijkstraMain
+import GraafVerif.Proof.DijkstraNext
+/-!
+# C03 — Dijkstra reports exact shortest distances and visits each reachable vertex once
+
+Only statements and their proofs by reference (`Proof/Dijkstra*.lean`).  `dijkstra`,
+`dijkstraDist`, `distances` are the models of `Dijkstra`, `DijkstraDist` (item sequences) and
+`DijkstraDist::distances` (Model/Dijkstra.lean; `none` = `usize::MAX`), tied to the code by the
+correspondence run.  Hypotheses `Hyp g S`: arcs in range, weights ≥ 0, sources in range and
+distinct.  "Path sums fit in `usize`" is what justifies reading `usize::MAX` as `none`.
+-/
+namespace GraafVerif.C03
+open GraafVerif GraafVerif.Dijkstra
+
+/-- Full statement of C03. -/
+def Statement : Prop :=
+  ∀ (g : WGraph) (S : List Nat), Hyp g S →
+    -- `DijkstraDist`: every reachable vertex exactly once, never an unreachable one …
+    ((dijkstraDist g S).map (·.1)).Nodup ∧
+    (∀ v, v ∈ (dijkstraDist g S).map (·.1) ↔ WReachFrom g S v) ∧
+    -- … each item carries the exact distance …
+    (∀ p ∈ dijkstraDist g S, IsMinDist g S p.1 p.2) ∧
+    -- … in non-decreasing distance order.
+    ((dijkstraDist g S).map (·.2)).Pairwise (· ≤ ·) ∧
+    -- `Dijkstra` yields the same vertices in the same order.
+    dijkstra g S = (dijkstraDist g S).map (·.1) ∧
+    -- `distances()[v]` is the minimum walk weight, and `usize::MAX` exactly when `v` is unreachable.
+    (distances g S).length = g.n ∧
+    (∀ v, v < g.n → ∀ d, (distances g S)[v]? = some (some d) ↔ IsMinDist g S v d) ∧
+    (∀ v, v < g.n → ((distances g S)[v]? = some none ↔ ¬ WReachFrom g S v)) ∧
+    -- the iteration terminates: the model's fuel is adequate (more fuel changes nothing)
+    (∀ f, fuel g S ≤ f → run g (fun _ => none) f (init g.n S) = entries g (fun _ => none) S)
+
+/-- [P0] Soundness: every emitted `(v, d)` has `d` = weight of a walk from a source to `v`, no
+vertex is emitted twice, and the fuel of the model is adequate. -/
+theorem dijkstra_sound (g : WGraph) (S : List Nat) (h : Hyp g S) :
+    (∀ p ∈ dijkstraDist g S, ∃ s ∈ S, ∃ k, WWalk g s p.1 k p.2) ∧
+    ((dijkstraDist g S).map (·.1)).Nodup ∧
+    (∀ f, fuel g S ≤ f → run g (fun _ => none) f (init g.n S) = entries g (fun _ => none) S) :=
+  dijkstraDist_sound g S h
+
+/-- [P1] Exactness of the item sequence: emitted set = reachable set, keys are the minimum walk
+weights, keys are non-decreasing. -/
+theorem dijkstra_exact (g : WGraph) (S : List Nat) (h : Hyp g S) :
+    (∀ v, v ∈ (dijkstraDist g S).map (·.1) ↔ WReachFrom g S v) ∧
+    (∀ p ∈ dijkstraDist g S, IsMinDist g S p.1 p.2) ∧
+    ((dijkstraDist g S).map (·.2)).Pairwise (· ≤ ·) :=
+  dijkstraDist_exact g S h
+
+/-- `Dijkstra` is `DijkstraDist` without the distances. -/
+theorem dijkstra_eq_map_fst (g : WGraph) (S : List Nat) :
+    dijkstra g S = (dijkstraDist g S).map (·.1) := by
+  simp [dijkstra, dijkstraDist, Function.comp_def]
+
+/-- `Dijkstra` in words of the property: each reachable vertex exactly once, no other, and later
+items never have a smaller distance. -/
+theorem dijkstra_iter (g : WGraph) (S : List Nat) (h : Hyp g S) :
+    (dijkstra g S).Nodup ∧ (∀ v, v ∈ dijkstra g S ↔ WReachFrom g S v) ∧
+    (dijkstra g S).Pairwise (fun a b => ∀ da db, IsMinDist g S a da → IsMinDist g S b db → da ≤ db) :=
+  dijkstra_iter_spec g S h
+
+/-- [P1] `distances()`: the minimum walk weight, `usize::MAX` (`none`) exactly when unreachable. -/
+theorem distances_spec (g : WGraph) (S : List Nat) (h : Hyp g S) :
+    (distances g S).length = g.n ∧
+    (∀ v, v < g.n → ∀ d, (distances g S)[v]? = some (some d) ↔ IsMinDist g S v d) ∧
+    (∀ v, v < g.n → ((distances g S)[v]? = some none ↔ ¬ WReachFrom g S v)) :=
+  distances_vec_spec g S h
+
+/-- C03 in full. -/
+theorem dijkstra_correct : Statement := by
+  intro g S h
+  obtain ⟨_, hnd, hfu⟩ := dijkstra_sound g S h
+  obtain ⟨h1, h2, h3⟩ := dijkstra_exact g S h
+  obtain ⟨h4, h5, h6⟩ := distances_spec g S h
+  exact ⟨hnd, h1, h2, h3, dijkstra_eq_map_fst g S, h4, h5, h6, hfu⟩
+
+/-- Model refinement: the literal iterator (`next` = skip loop + relaxation scan, `collect` = call
+`next` until `None`) yields exactly the entry sequence `entries` that the theorems above (tag
+`fun _ => none`: `Dijkstra`, `DijkstraDist`) and C05's (tag `some`: `DijkstraPred`) speak about. -/
+theorem dijkstra_next_collect (g : WGraph) (S : List Nat) (h : Hyp g S) :
+    collect g (fun _ => none) (fuel g S) (init g.n S) = entries g (fun _ => none) S ∧
+    collect g some (fuel g S) (init g.n S) = entries g some S :=
+  ⟨collect_eq_entries h tagOK_none, collect_eq_entries h tagOK_some⟩
+
+/-! Non-vacuity: the digraph on which the unrepaired code lost vertex 3 meets the hypotheses,
+and the statement's objects are the expected non-trivial ones. -/
+example : Hyp gStale [0] := by
+  refine ⟨?_, ?_, by decide, by decide⟩
+  · intro u v w h
+    have hn : gStale.n = 4 := rfl
+    rw [hn]
+    unfold gStale at h
+    dsimp only at h
+    split at h <;> simp at h
+    · rcases h with h | h | h <;> omega
+    · omega
+  · intro u v w h
+    unfold WGraph.A gStale at h
+    dsimp only at h
+    split at h <;> simp at h
+    · rcases h with h | h | h <;> omega
+    · omega
+example : dijkstraDist gStale [0] = [(0, 0), (2, 1), (1, 2), (3, 20)] := by decide
+example : distances gStale [0] = [some 0, some 2, some 1, some 20] := by decide
+/-- an unreachable vertex and a zero-weight cycle, two sources -/
+example : distances ⟨5, fun u => match u with | 0 => [(1, 0)] | 1 => [(0, 0), (2, 3)] | 4 => [(2, 1)] | _ => []⟩ [0, 4]
+    = [some 0, some 0, some 1, none, some 0] := by decide
+
+end GraafVerif.C03
